@@ -10,6 +10,22 @@ def extern_fns(fb):
     return [b for b in fb.bodies.values() if b["crate"] == "biscuit_capi" and (b.get("abi") or "").startswith("C") and b["kind"] == "Fn"]
 
 
+def call_args(rendered, name):
+    """argument text of every `name(...)` occurrence in a rendered def-chain expression (balanced parentheses)"""
+    out, i = [], 0
+    while True:
+        i = rendered.find(name + "(", i)
+        if i < 0:
+            return out
+        j, depth = i + len(name) + 1, 1
+        k = j
+        while k < len(rendered) and depth:
+            depth += {"(": 1, ")": -1}.get(rendered[k], 0)
+            k += 1
+        out.append(rendered[j:k - 1])
+        i = k
+
+
 def check(fb, ctx):
     ctx.explanation = (
         "REACH: every extern \"C\" function and the helper methods it calls contain no panic source (a panic there aborts the "
@@ -87,8 +103,7 @@ def check(fb, ctx):
                 ok = bool(FIXED32.search(src)) and N == 32
                 ctx.check(ok, "SIZE", inst, key, f"the buffer is a constant {N} bytes but the copied value `{src}` is not {N} bytes for every algorithm (a P-256 public key is 33 bytes)", where)
             else:
-                rn = re.findall(r"serialized_size\(([^()]*(?:\([^()]*\))?[^()]*)\)", n)
-                rs = re.findall(r"to_vec\(([^()]*(?:\([^()]*\))?[^()]*)\)", src)
+                rn, rs = call_args(n, "serialized_size"), call_args(src, "to_vec")
                 ok = bool(rn) and bool(rs) and rn[0] == rs[0]
                 ctx.check(ok, "SIZE", inst, key, f"the buffer length comes from `{n}` and the copied bytes from `{src}`: they must be serialized_size() and to_vec() of the same token", where)
     ctx.floor("raw-buffer copies in extern fns", n_size, 4)
